@@ -1,4 +1,4 @@
-import Proofs.Lemmas.LowerStringsV
+import Proofs.Lemmas.LowerStringsIV
 /-!
 # ES specification ⇒ IR semantics: the induction over the AST
 
@@ -14,10 +14,11 @@ open Regress Regress.IR Regress.VM Regress.Parse
 
 /-- Class-like atoms: without `i` (`classSupported`), with `i` under `u` (`classSupportedIU`) or
 with `i` under `v` (`classSupportedIV`); `v`-mode classes with `\\q{…}` strings without `i`
-(`classSupportedS`). -/
+(`classSupportedS`) and with `i` (`classSupportedSI`). -/
 def classSupportedAny (fl : IR.Flags) (n : ES.Node) : Bool :=
   classSupported fl n || (fl.icase && fl.unicode && !fl.unicodeSets && classSupportedIU fl n) ||
-    (fl.icase && fl.unicode && fl.unicodeSets && classSupportedIV fl n) || classSupportedS fl n
+    (fl.icase && fl.unicode && fl.unicodeSets && classSupportedIV fl n) || classSupportedS fl n ||
+    (fl.icase && fl.unicode && fl.unicodeSets && classSupportedSI fl n)
 
 theorem unicode_of_icase {fl : IR.Flags} (hs : fl.icase = false ∨ fl.unicode = true) (hfi : fl.icase = true) :
     fl.unicode = true := by
@@ -30,9 +31,10 @@ theorem applyMods_unicode (fl : IR.Flags) (m : Parse.Mods) : (applyMods fl m).un
   cases m.icase <;> cases m.multiline <;> cases m.dotAll <;> rfl
 
 mutual
-/-- The constructs for which the simulation is proved (stages A and B: everything except
-case-insensitive matching, `\\q{…}` strings and properties of strings; a named back-reference must
-resolve to a single group; class members must be valid code points). -/
+/-- The constructs for which the simulation is proved: everything except case-insensitive matching
+without `u`/`v` (legacy `Canonicalize`) and properties of strings; a named back-reference must
+resolve to a single group; class members and the code points of `\\q{…}` strings must be valid
+(scalar) code points. -/
 def supported (pattern : ES.Node) : IR.Flags → ES.Node → Bool
   | _, .empty => true
   | fl, .char _ => !fl.icase || fl.unicode
@@ -419,32 +421,36 @@ theorem lower_node (ht : Utf8Text inp cs) (pattern : ES.Node) (total : Nat) (hto
       rw [hid hb0 hlb]
   | .esc e, fl, rer, pi, back, ir, hfl, hiu, hs, hl, hb => by
     simp only [supported, classSupportedAny, Bool.or_eq_true, Bool.and_eq_true, Bool.not_eq_true'] at hs
-    rcases hs with ((hs | ⟨⟨⟨h1, h2⟩, h3⟩, h4⟩) | ⟨⟨⟨h1, h2⟩, h3⟩, h4⟩) | hs
+    rcases hs with (((hs | ⟨⟨⟨h1, h2⟩, h3⟩, h4⟩) | ⟨⟨⟨h1, h2⟩, h3⟩, h4⟩) | hs) | ⟨⟨⟨h1, h2⟩, h3⟩, h4⟩
     · exact lower_class_node ht pattern total _ fl rer pi back ir hfl hs hl
     · exact lower_class_node_iu ht pattern total _ fl rer pi back ir hfl h1 h2 h3 h4 hl
     · exact lower_class_node_iv ht pattern total _ fl rer pi back ir hfl h1 h2 h3 h4 hl
     · exact lower_class_node_s ht pattern total _ fl rer pi back ir hfl hs hl
+    · exact lower_class_node_si ht (by rw [hiu]; exact h2) pattern total _ fl rer pi back ir hfl h1 h2 h3 h4 hl
   | .prop neg kind name, fl, rer, pi, back, ir, hfl, hiu, hs, hl, hb => by
     simp only [supported, classSupportedAny, Bool.or_eq_true, Bool.and_eq_true, Bool.not_eq_true'] at hs
-    rcases hs with ((hs | ⟨⟨⟨h1, h2⟩, h3⟩, h4⟩) | ⟨⟨⟨h1, h2⟩, h3⟩, h4⟩) | hs
+    rcases hs with (((hs | ⟨⟨⟨h1, h2⟩, h3⟩, h4⟩) | ⟨⟨⟨h1, h2⟩, h3⟩, h4⟩) | hs) | ⟨⟨⟨h1, h2⟩, h3⟩, h4⟩
     · exact lower_class_node ht pattern total _ fl rer pi back ir hfl hs hl
     · exact lower_class_node_iu ht pattern total _ fl rer pi back ir hfl h1 h2 h3 h4 hl
     · exact lower_class_node_iv ht pattern total _ fl rer pi back ir hfl h1 h2 h3 h4 hl
     · exact lower_class_node_s ht pattern total _ fl rer pi back ir hfl hs hl
+    · exact lower_class_node_si ht (by rw [hiu]; exact h2) pattern total _ fl rer pi back ir hfl h1 h2 h3 h4 hl
   | .cls neg items, fl, rer, pi, back, ir, hfl, hiu, hs, hl, hb => by
     simp only [supported, classSupportedAny, Bool.or_eq_true, Bool.and_eq_true, Bool.not_eq_true'] at hs
-    rcases hs with ((hs | ⟨⟨⟨h1, h2⟩, h3⟩, h4⟩) | ⟨⟨⟨h1, h2⟩, h3⟩, h4⟩) | hs
+    rcases hs with (((hs | ⟨⟨⟨h1, h2⟩, h3⟩, h4⟩) | ⟨⟨⟨h1, h2⟩, h3⟩, h4⟩) | hs) | ⟨⟨⟨h1, h2⟩, h3⟩, h4⟩
     · exact lower_class_node ht pattern total _ fl rer pi back ir hfl hs hl
     · exact lower_class_node_iu ht pattern total _ fl rer pi back ir hfl h1 h2 h3 h4 hl
     · exact lower_class_node_iv ht pattern total _ fl rer pi back ir hfl h1 h2 h3 h4 hl
     · exact lower_class_node_s ht pattern total _ fl rer pi back ir hfl hs hl
+    · exact lower_class_node_si ht (by rw [hiu]; exact h2) pattern total _ fl rer pi back ir hfl h1 h2 h3 h4 hl
   | .vcls neg op ops, fl, rer, pi, back, ir, hfl, hiu, hs, hl, hb => by
     simp only [supported, classSupportedAny, Bool.or_eq_true, Bool.and_eq_true, Bool.not_eq_true'] at hs
-    rcases hs with ((hs | ⟨⟨⟨h1, h2⟩, h3⟩, h4⟩) | ⟨⟨⟨h1, h2⟩, h3⟩, h4⟩) | hs
+    rcases hs with (((hs | ⟨⟨⟨h1, h2⟩, h3⟩, h4⟩) | ⟨⟨⟨h1, h2⟩, h3⟩, h4⟩) | hs) | ⟨⟨⟨h1, h2⟩, h3⟩, h4⟩
     · exact lower_class_node ht pattern total _ fl rer pi back ir hfl hs hl
     · exact lower_class_node_iu ht pattern total _ fl rer pi back ir hfl h1 h2 h3 h4 hl
     · exact lower_class_node_iv ht pattern total _ fl rer pi back ir hfl h1 h2 h3 h4 hl
     · exact lower_class_node_s ht pattern total _ fl rer pi back ir hfl hs hl
+    · exact lower_class_node_si ht (by rw [hiu]; exact h2) pattern total _ fl rer pi back ir hfl h1 h2 h3 h4 hl
 theorem lower_list (ht : Utf8Text inp cs) (pattern : ES.Node) (total : Nat) (htot : ES.countParens pattern ≤ total) :
     ∀ (ns : List ES.Node) (fl : IR.Flags) (rer : ES.RER) (pi : Nat) (back : Bool) (xs : List Node),
       FlagsRel rer fl → inp.unicode = fl.unicode → supportedList pattern fl ns = true →
